@@ -1,5 +1,5 @@
 // auto-generated: "lalrpop 0.23.1"
-// sha3: 03522b3992bb31bc92a88beb257286945606c0260f7bdb5443a35a8e1959ceb9
+// sha3: 90f08aed5eb39a7286f1e2e4441a754acfade66c5049c5fba254ae7d7b5a725b
 use crate::rt::*;
 #[allow(unused_extern_crates)]
 extern crate lalrpop_util as __lalrpop_util;
@@ -29,49 +29,43 @@ mod __parse__S {
     }
     const __ACTION: &[i8] = &[
         // State 0
-        14, 15, 0, 3,
+        7, 8, 0, 3,
         // State 1
-        14, 15, 0, 0,
+        7, 8, 0, 0,
         // State 2
-        14, 15, 0, 0,
+        7, 8, 0, 0,
         // State 3
-        14, 15, 0, 0,
+        7, 8, 0, 0,
         // State 4
-        14, 15, 0, 0,
+        0, 0, 0, 0,
         // State 5
-        14, 15, 0, 0,
+        0, 0, 4, 0,
         // State 6
-        14, 15, 0, 0,
+        0, 10, 0, 0,
         // State 7
-        14, 15, 0, 0,
+        11, 12, 0, 0,
         // State 8
-        14, 15, 0, 0,
+        0, 0, 0, 14,
         // State 9
-        14, 15, 0, 0,
+        16, 17, 0, 0,
         // State 10
-        14, 15, 0, 0,
+        0, 18, 0, 0,
         // State 11
-        14, 15, 0, 0,
+        -9, -9, -9, -9,
         // State 12
         0, 0, 0, 0,
         // State 13
-        0, 17, 0, 0,
+        0, 0, 0, 0,
         // State 14
-        -8, -8, -8, -8,
+        -5, -5, 0, -5,
         // State 15
-        0, 0, 5, 0,
+        0, 19, 0, 0,
         // State 16
         -7, -7, -7, -7,
         // State 17
-        0, 0, 7, 0,
+        -8, -8, -8, -8,
         // State 18
-        0, 0, 0, 0,
-        // State 19
-        0, 0, 11, 0,
-        // State 20
-        0, 0, 0, 22,
-        // State 21
-        0, 0, 0, 0,
+        -6, -6, -6, -6,
     ];
     fn __action(state: i8, integer: usize) -> i8 {
         __ACTION[(state as usize) * 4 + integer]
@@ -86,7 +80,7 @@ mod __parse__S {
         // State 3
         0,
         // State 4
-        0,
+        -12,
         // State 5
         0,
         // State 6
@@ -100,44 +94,33 @@ mod __parse__S {
         // State 10
         0,
         // State 11
-        0,
-        // State 12
         -9,
+        // State 12
+        -4,
         // State 13
-        0,
+        -3,
         // State 14
-        -8,
+        -5,
         // State 15
         0,
         // State 16
         -7,
         // State 17
-        0,
+        -8,
         // State 18
-        -4,
-        // State 19
-        0,
-        // State 20
-        0,
-        // State 21
-        -3,
+        -6,
     ];
     fn __goto(state: i8, nt: usize) -> i8 {
         match nt {
-            2 => 12,
-            5 => match state {
-                2 => 3,
-                4 => 5,
-                5 => 7,
-                6 => 8,
-                7 => 9,
-                10 => 11,
-                1 => 15,
-                3 => 17,
-                8 => 18,
-                9 => 19,
-                11 => 20,
+            2 => 4,
+            3 => match state {
+                1 => 8,
+                2 => 12,
                 _ => 1,
+            },
+            4 => match state {
+                3 => 14,
+                _ => 5,
             },
             _ => 0,
         }
@@ -320,41 +303,59 @@ mod __parse__S {
             }
             2 => {
                 __state_machine::SimulatedReduce::Reduce {
-                    states_to_pop: 11,
+                    states_to_pop: 3,
                     nonterminal_produced: 2,
                 }
             }
             3 => {
                 __state_machine::SimulatedReduce::Reduce {
-                    states_to_pop: 6,
+                    states_to_pop: 2,
                     nonterminal_produced: 2,
                 }
             }
             4 => {
                 __state_machine::SimulatedReduce::Reduce {
-                    states_to_pop: 5,
+                    states_to_pop: 3,
                     nonterminal_produced: 3,
                 }
             }
             5 => {
                 __state_machine::SimulatedReduce::Reduce {
-                    states_to_pop: 2,
+                    states_to_pop: 4,
                     nonterminal_produced: 4,
                 }
             }
             6 => {
                 __state_machine::SimulatedReduce::Reduce {
+                    states_to_pop: 3,
+                    nonterminal_produced: 4,
+                }
+            }
+            7 => {
+                __state_machine::SimulatedReduce::Reduce {
+                    states_to_pop: 3,
+                    nonterminal_produced: 4,
+                }
+            }
+            8 => {
+                __state_machine::SimulatedReduce::Reduce {
+                    states_to_pop: 2,
+                    nonterminal_produced: 4,
+                }
+            }
+            9 => {
+                __state_machine::SimulatedReduce::Reduce {
                     states_to_pop: 2,
                     nonterminal_produced: 5,
                 }
             }
-            7 => {
+            10 => {
                 __state_machine::SimulatedReduce::Reduce {
                     states_to_pop: 1,
                     nonterminal_produced: 5,
                 }
             }
-            8 => __state_machine::SimulatedReduce::Accept,
+            11 => __state_machine::SimulatedReduce::Accept,
             _ => panic!("invalid reduction index {__reduce_index}")
         }
     }
@@ -456,6 +457,15 @@ mod __parse__S {
                 __reduce7(__lookahead_start, __symbols, core::marker::PhantomData::<()>)
             }
             8 => {
+                __reduce8(__lookahead_start, __symbols, core::marker::PhantomData::<()>)
+            }
+            9 => {
+                __reduce9(__lookahead_start, __symbols, core::marker::PhantomData::<()>)
+            }
+            10 => {
+                __reduce10(__lookahead_start, __symbols, core::marker::PhantomData::<()>)
+            }
+            11 => {
                 // __S = S => ActionFn(0);
                 let __sym0 = __pop_Variant2(__symbols);
                 let __start = __sym0.0.clone();
@@ -541,24 +551,16 @@ mod __parse__S {
         _: core::marker::PhantomData<()>,
     ) -> (usize, usize)
     {
-        // S = Z, Z, "c", Z, Z, Z, Z, "c", Z, Z, "d" => ActionFn(22);
-        assert!(__symbols.len() >= 11);
-        let __sym10 = __pop_Variant0(__symbols);
-        let __sym9 = __pop_Variant2(__symbols);
-        let __sym8 = __pop_Variant2(__symbols);
-        let __sym7 = __pop_Variant0(__symbols);
-        let __sym6 = __pop_Variant2(__symbols);
-        let __sym5 = __pop_Variant2(__symbols);
-        let __sym4 = __pop_Variant2(__symbols);
-        let __sym3 = __pop_Variant2(__symbols);
+        // S = X, X, "d" => ActionFn(15);
+        assert!(__symbols.len() >= 3);
         let __sym2 = __pop_Variant0(__symbols);
         let __sym1 = __pop_Variant2(__symbols);
         let __sym0 = __pop_Variant2(__symbols);
         let __start = __sym0.0.clone();
-        let __end = __sym10.2.clone();
-        let __nt = super::__action22::<>(__sym0, __sym1, __sym2, __sym3, __sym4, __sym5, __sym6, __sym7, __sym8, __sym9, __sym10);
+        let __end = __sym2.2.clone();
+        let __nt = super::__action15::<>(__sym0, __sym1, __sym2);
         __symbols.push((__start, __Symbol::Variant2(__nt), __end));
-        (11, 2)
+        (3, 2)
     }
     fn __reduce3<
     >(
@@ -567,19 +569,15 @@ mod __parse__S {
         _: core::marker::PhantomData<()>,
     ) -> (usize, usize)
     {
-        // S = "d", Z, Z, "c", Z, Z => ActionFn(23);
-        assert!(__symbols.len() >= 6);
-        let __sym5 = __pop_Variant2(__symbols);
-        let __sym4 = __pop_Variant2(__symbols);
-        let __sym3 = __pop_Variant0(__symbols);
-        let __sym2 = __pop_Variant2(__symbols);
+        // S = "d", X => ActionFn(16);
+        assert!(__symbols.len() >= 2);
         let __sym1 = __pop_Variant2(__symbols);
         let __sym0 = __pop_Variant0(__symbols);
         let __start = __sym0.0.clone();
-        let __end = __sym5.2.clone();
-        let __nt = super::__action23::<>(__sym0, __sym1, __sym2, __sym3, __sym4, __sym5);
+        let __end = __sym1.2.clone();
+        let __nt = super::__action16::<>(__sym0, __sym1);
         __symbols.push((__start, __Symbol::Variant2(__nt), __end));
-        (6, 2)
+        (2, 2)
     }
     fn __reduce4<
     >(
@@ -588,18 +586,16 @@ mod __parse__S {
         _: core::marker::PhantomData<()>,
     ) -> (usize, usize)
     {
-        // X = Z, Z, "c", Z, Z => ActionFn(21);
-        assert!(__symbols.len() >= 5);
-        let __sym4 = __pop_Variant2(__symbols);
-        let __sym3 = __pop_Variant2(__symbols);
-        let __sym2 = __pop_Variant0(__symbols);
-        let __sym1 = __pop_Variant2(__symbols);
+        // X = Y, "c", Y => ActionFn(17);
+        assert!(__symbols.len() >= 3);
+        let __sym2 = __pop_Variant2(__symbols);
+        let __sym1 = __pop_Variant0(__symbols);
         let __sym0 = __pop_Variant2(__symbols);
         let __start = __sym0.0.clone();
-        let __end = __sym4.2.clone();
-        let __nt = super::__action21::<>(__sym0, __sym1, __sym2, __sym3, __sym4);
+        let __end = __sym2.2.clone();
+        let __nt = super::__action17::<>(__sym0, __sym1, __sym2);
         __symbols.push((__start, __Symbol::Variant2(__nt), __end));
-        (5, 3)
+        (3, 3)
     }
     fn __reduce5<
     >(
@@ -608,17 +604,72 @@ mod __parse__S {
         _: core::marker::PhantomData<()>,
     ) -> (usize, usize)
     {
-        // Y = Z, Z => ActionFn(18);
+        // Y = "a", "b", "a", "b" => ActionFn(21);
+        assert!(__symbols.len() >= 4);
+        let __sym3 = __pop_Variant0(__symbols);
+        let __sym2 = __pop_Variant0(__symbols);
+        let __sym1 = __pop_Variant0(__symbols);
+        let __sym0 = __pop_Variant0(__symbols);
+        let __start = __sym0.0.clone();
+        let __end = __sym3.2.clone();
+        let __nt = super::__action21::<>(__sym0, __sym1, __sym2, __sym3);
+        __symbols.push((__start, __Symbol::Variant2(__nt), __end));
+        (4, 4)
+    }
+    fn __reduce6<
+    >(
+        __lookahead_start: Option<&i64>,
+        __symbols: &mut alloc::vec::Vec<(i64,__Symbol<>,i64)>,
+        _: core::marker::PhantomData<()>,
+    ) -> (usize, usize)
+    {
+        // Y = "a", "b", "b" => ActionFn(22);
+        assert!(__symbols.len() >= 3);
+        let __sym2 = __pop_Variant0(__symbols);
+        let __sym1 = __pop_Variant0(__symbols);
+        let __sym0 = __pop_Variant0(__symbols);
+        let __start = __sym0.0.clone();
+        let __end = __sym2.2.clone();
+        let __nt = super::__action22::<>(__sym0, __sym1, __sym2);
+        __symbols.push((__start, __Symbol::Variant2(__nt), __end));
+        (3, 4)
+    }
+    fn __reduce7<
+    >(
+        __lookahead_start: Option<&i64>,
+        __symbols: &mut alloc::vec::Vec<(i64,__Symbol<>,i64)>,
+        _: core::marker::PhantomData<()>,
+    ) -> (usize, usize)
+    {
+        // Y = "b", "a", "b" => ActionFn(23);
+        assert!(__symbols.len() >= 3);
+        let __sym2 = __pop_Variant0(__symbols);
+        let __sym1 = __pop_Variant0(__symbols);
+        let __sym0 = __pop_Variant0(__symbols);
+        let __start = __sym0.0.clone();
+        let __end = __sym2.2.clone();
+        let __nt = super::__action23::<>(__sym0, __sym1, __sym2);
+        __symbols.push((__start, __Symbol::Variant2(__nt), __end));
+        (3, 4)
+    }
+    fn __reduce8<
+    >(
+        __lookahead_start: Option<&i64>,
+        __symbols: &mut alloc::vec::Vec<(i64,__Symbol<>,i64)>,
+        _: core::marker::PhantomData<()>,
+    ) -> (usize, usize)
+    {
+        // Y = "b", "b" => ActionFn(24);
         assert!(__symbols.len() >= 2);
-        let __sym1 = __pop_Variant2(__symbols);
-        let __sym0 = __pop_Variant2(__symbols);
+        let __sym1 = __pop_Variant0(__symbols);
+        let __sym0 = __pop_Variant0(__symbols);
         let __start = __sym0.0.clone();
         let __end = __sym1.2.clone();
-        let __nt = super::__action18::<>(__sym0, __sym1);
+        let __nt = super::__action24::<>(__sym0, __sym1);
         __symbols.push((__start, __Symbol::Variant2(__nt), __end));
         (2, 4)
     }
-    fn __reduce6<
+    fn __reduce9<
     >(
         __lookahead_start: Option<&i64>,
         __symbols: &mut alloc::vec::Vec<(i64,__Symbol<>,i64)>,
@@ -635,7 +686,7 @@ mod __parse__S {
         __symbols.push((__start, __Symbol::Variant2(__nt), __end));
         (2, 5)
     }
-    fn __reduce7<
+    fn __reduce10<
     >(
         __lookahead_start: Option<&i64>,
         __symbols: &mut alloc::vec::Vec<(i64,__Symbol<>,i64)>,
@@ -1040,30 +1091,28 @@ fn __action20<
     clippy::just_underscores_and_digits, clippy::clone_on_copy, clippy::unit_arg)]
 fn __action21<
 >(
-    __0: (i64, Tree, i64),
-    __1: (i64, Tree, i64),
+    __0: (i64, Tok, i64),
+    __1: (i64, Tok, i64),
     __2: (i64, Tok, i64),
-    __3: (i64, Tree, i64),
-    __4: (i64, Tree, i64),
+    __3: (i64, Tok, i64),
 ) -> Tree
 {
     let __start0 = __0.0.clone();
     let __end0 = __1.2.clone();
-    let __start1 = __3.0.clone();
-    let __end1 = __4.2.clone();
-    let __temp0 = __action18(
+    let __start1 = __2.0.clone();
+    let __end1 = __3.2.clone();
+    let __temp0 = __action19(
         __0,
         __1,
     );
     let __temp0 = (__start0, __temp0, __end0);
-    let __temp1 = __action18(
+    let __temp1 = __action19(
+        __2,
         __3,
-        __4,
     );
     let __temp1 = (__start1, __temp1, __end1);
-    __action17(
+    __action18(
         __temp0,
-        __2,
         __temp1,
     )
 }
@@ -1072,43 +1121,27 @@ fn __action21<
     clippy::just_underscores_and_digits, clippy::clone_on_copy, clippy::unit_arg)]
 fn __action22<
 >(
-    __0: (i64, Tree, i64),
-    __1: (i64, Tree, i64),
+    __0: (i64, Tok, i64),
+    __1: (i64, Tok, i64),
     __2: (i64, Tok, i64),
-    __3: (i64, Tree, i64),
-    __4: (i64, Tree, i64),
-    __5: (i64, Tree, i64),
-    __6: (i64, Tree, i64),
-    __7: (i64, Tok, i64),
-    __8: (i64, Tree, i64),
-    __9: (i64, Tree, i64),
-    __10: (i64, Tok, i64),
 ) -> Tree
 {
     let __start0 = __0.0.clone();
-    let __end0 = __4.2.clone();
-    let __start1 = __5.0.clone();
-    let __end1 = __9.2.clone();
-    let __temp0 = __action21(
+    let __end0 = __1.2.clone();
+    let __start1 = __2.0.clone();
+    let __end1 = __2.2.clone();
+    let __temp0 = __action19(
         __0,
         __1,
-        __2,
-        __3,
-        __4,
     );
     let __temp0 = (__start0, __temp0, __end0);
-    let __temp1 = __action21(
-        __5,
-        __6,
-        __7,
-        __8,
-        __9,
+    let __temp1 = __action20(
+        __2,
     );
     let __temp1 = (__start1, __temp1, __end1);
-    __action15(
+    __action18(
         __temp0,
         __temp1,
-        __10,
     )
 }
 
@@ -1117,26 +1150,52 @@ fn __action22<
 fn __action23<
 >(
     __0: (i64, Tok, i64),
-    __1: (i64, Tree, i64),
-    __2: (i64, Tree, i64),
-    __3: (i64, Tok, i64),
-    __4: (i64, Tree, i64),
-    __5: (i64, Tree, i64),
+    __1: (i64, Tok, i64),
+    __2: (i64, Tok, i64),
 ) -> Tree
 {
-    let __start0 = __1.0.clone();
-    let __end0 = __5.2.clone();
-    let __temp0 = __action21(
-        __1,
-        __2,
-        __3,
-        __4,
-        __5,
+    let __start0 = __0.0.clone();
+    let __end0 = __0.2.clone();
+    let __start1 = __1.0.clone();
+    let __end1 = __2.2.clone();
+    let __temp0 = __action20(
+        __0,
     );
     let __temp0 = (__start0, __temp0, __end0);
-    __action16(
-        __0,
+    let __temp1 = __action19(
+        __1,
+        __2,
+    );
+    let __temp1 = (__start1, __temp1, __end1);
+    __action18(
         __temp0,
+        __temp1,
+    )
+}
+
+#[allow(clippy::too_many_arguments, clippy::needless_lifetimes,
+    clippy::just_underscores_and_digits, clippy::clone_on_copy, clippy::unit_arg)]
+fn __action24<
+>(
+    __0: (i64, Tok, i64),
+    __1: (i64, Tok, i64),
+) -> Tree
+{
+    let __start0 = __0.0.clone();
+    let __end0 = __0.2.clone();
+    let __start1 = __1.0.clone();
+    let __end1 = __1.2.clone();
+    let __temp0 = __action20(
+        __0,
+    );
+    let __temp0 = (__start0, __temp0, __end0);
+    let __temp1 = __action20(
+        __1,
+    );
+    let __temp1 = (__start1, __temp1, __end1);
+    __action18(
+        __temp0,
+        __temp1,
     )
 }
 
